@@ -230,11 +230,18 @@ Fixpoint takez (n : Z) (l : bytes) : bytes :=
 Section Download.
   Variable sha256hex : bytes -> bytes.            (* hex.EncodeToString(sha256(data)) *)
   Variable presign_ok : bool.                     (* PresignGetObject succeeded *)
-  Variable get : bytes -> s3obj.                  (* s3Uploader.GetObject by key *)
+  (* s3Uploader.GetObject by key: the outcomes of SUCCESSIVE calls for this request
+     (attempt 1, attempt 2, ...).  The code makes exactly one call and any failure of
+     it ends the request with 502 — there is no retry; the list is there so that a
+     retrying variant is a correspondence mismatch (status / number of calls) at once. *)
+  Variable get : bytes -> list s3obj.
+
+  Definition first_attempt (key : bytes) : s3obj :=
+    match get key with [] => GErr | o :: _ => o end.
 
   (* streamDownloadWithVerify *)
   Definition stream_download (key expected_sha : bytes) (expected_size : Z) : dlresp :=
-    match get key with
+    match first_attempt key with
     | GErr => DError 502 (codes "s3_get_failed")
     | GBody data rerr =>
       let limit := expected_size + 1 in                          (* io.LimitReader(obj.Body, size+1) *)
@@ -280,4 +287,12 @@ Section Download.
     else if presign then
       (if presign_ok then DPresign sha (q_size q) else DError 502 (codes "s3_presign_failed"))
     else stream_download key sha (q_size q).
+  (* number of GetObject calls the request makes: one iff it reaches the stream path *)
+  Definition reaches_stream (r : dlresp) : bool :=
+    match r with
+    | DStream _ _ => true
+    | DError 502 c => bytes_eqb c (codes "s3_get_failed") || bytes_eqb c (codes "integrity_failure")
+    | _ => false
+    end.
+  Definition get_calls (cfg : dlcfg) (q : dlreq) : Z := if reaches_stream (download cfg q) then 1 else 0.
 End Download.
